@@ -258,4 +258,10 @@ def canonicalFunc : String → Option String
   | "Number of foreminima" => some "count_foreminima"
   | _ => none
 
+/-! ### gaps -/
+
+/-- taxicab (L¹) distance between the points `(i, σ⟦i⟧)` and `(j, σ⟦j⟧)` of the diagram -/
+def taxicab (σ : NSeq) (i j : Nat) : Nat :=
+  Int.natAbs ((i : Int) - (j : Int)) + Int.natAbs (((σ⟦i⟧ : Nat) : Int) - ((σ⟦j⟧ : Nat) : Int))
+
 end Spec.Stat
